@@ -1,3 +1,6 @@
+import os
+
+from .. import core
 from ..chanprop import ChanSpec
 from .c01 import C01
 
@@ -9,11 +12,31 @@ class C11(ChanSpec):
     level_text = ("Lean 4 theorems over the Chan LTS with the repaired entry check (every write entry point consults the atomic closed flag and reports the stored close error or a non-nil "
                   "sentinel): the closed flag never resets, a call whose entry check runs after any Close won the flag is rejected without changing the state, and only calls that passed the "
                   "check can extend `accepted`; hence after Close has returned every new write fails and transmits nothing, for every Close argument including nil. Tie as C01, scenarios with "
-                  "Close(nil/e1/e2) followed by every write entry point from the same and from other goroutines, and IsActive queries.")
+                  "Close(nil/e1/e2) followed by every write entry point from the same and from other goroutines, and IsActive queries. Streaming entry point: ReadFrom copies a reader "
+                  "chunk by chunk through the checked low-level write, so with a Close between two chunks exactly the chunks read before it are written and the call reports the close error "
+                  "(model + theorem); differential runs close the channel from inside the reader's k-th Read on sync and queued channels and compare bytes on the transport, the count, the "
+                  "error, and require that no transport write follows the Close.")
     level_note = C01.level_note
     rule = C01.rule + "; plus 1-2 closers whose Close (nil / e1 / e2) is followed by a write; IsActive queries"
     assumptions = ()
     modelled_not_verified = C01.modelled_not_verified
+
+    def harness(self, seed, count, tier):
+        lines = super().harness(seed, count, tier)
+        rc, so, se = core.run([os.path.join(core.BIN, "nvh"), "-prop", "C11", "-seed", str(seed), "-count", str(400 if tier == "quick" else 10000)], timeout=1800)
+        lines += [l for l in so.split("\n") if l]
+        if rc != 0:
+            lines.append("C11 crash harness-exit-%d" % rc)
+        return lines
+
+    def nontrivial(self, line, answer):
+        t = line.split()
+        return t[1] in ("end", "rf")
+
+    def extra_coverage(self, pairs):
+        cov = super().extra_coverage([(l, a) for l, a in pairs if l.split()[1] != "rf"])
+        cov["readfrom_cases"] = sum(1 for l, a in pairs if l.split()[1] == "rf")
+        return cov
 
 
 SPEC = C11()
